@@ -11,7 +11,7 @@ RULE = ('Cases = persistent worker kind x state at restart (never used, results 
 ASSUMPTIONS = ['responsive clock for the liveness clause "returns with a live worker"']
 
 PKINDS = ['pthread', 'pprocess', 'premote']
-STATES = ['unused', 'unread', 'queued', 'closed', 'died', 'killed', 'stuck']
+STATES = ['unused', 'unread', 'queued', 'closed', 'died', 'killed', 'stuck', 'pipe-full']
 
 
 def gen_case(ctx, rng, i, tag='random'):
@@ -24,7 +24,20 @@ def gen_case(ctx, rng, i, tag='random'):
         if st == 'killed' and kind == 'pthread':
             st = 'died'
         states.append(st)
-    return {'kind': kind, 'states': states, 'own_pipe': rng.random() < 0.5, 'timeout': rng.choice([0.05, 1]),
+    own_pipe = rng.random() < 0.5
+    fault = None
+    if 'pipe-full' in states:
+        # results of the old incarnation (nearly) fill the caller-supplied results pipe, so that the old child may block
+        # writing its last result or its end marker
+        own_pipe = True
+        knobs['pipe_cap'] = 4096
+        states = [s_ if s_ != 'pipe-full' or j == states.index('pipe-full') else 'unread' for j, s_ in enumerate(states)]
+    elif kind == 'premote' and rng.random() < 0.4:
+        fault = {'kind': 'stall', 'role': 'RemoteWorker._run_frontend', 'any_thread': True,
+                 'qualname': rng.choice(['PersistentRemoteWorker._fetch_results', 'recv_msg']), 'occ': rng.randrange(2, 14),
+                 'duration': rng.choice([0.5, 3.0, 20.0])}
+    return {'kind': kind, 'states': states, 'own_pipe': own_pipe, 'timeout': rng.choice([0.05, 1]),
+            'fill': rng.randrange(3400, 4080), 'restart_force': rng.choice([None, False]), 'fault': fault,
             'policy': pol, 'knobs': knobs, 'sched_seed': ctx.case_seed(tag, i)}
 
 
@@ -34,6 +47,7 @@ class Run:
         self.case = case
         self.V = []
         self.log = []
+        C.install_fault(sim, case.get('fault'))
 
     def viol(self, clause, man, detail=None):
         self.V.append({'clause': clause, 'manifestation': man, 'detail': {'detail': detail, 'log': self.log[-10:]}})
@@ -68,6 +82,7 @@ class Run:
         for gen, st in enumerate(c['states']):
             old_id = w.id
             old_child = self.child_ident(kind, w)
+            old_front = w.__dict__.get('_child') if kind == 'premote' else None   # parent-side frontend thread of a remote worker
             # bring the incarnation into the requested state
             sent = []
             if st in ('unread', 'queued', 'closed'):
@@ -99,6 +114,13 @@ class Run:
                     except ProcessLookupError:
                         pass
                 s.sleep(0.1)
+            elif st == 'pipe-full':
+                try:
+                    w.enqueue(uniq + 500, big=c.get('fill', 3900))
+                    sent.append(uniq + 500)
+                except Exception as e:   # noqa
+                    self.log.append(['enqueue-exc', type(e).__name__])
+                s.sleep(0.3)
             elif st == 'stuck':
                 # swallow-everything item: the old incarnation cannot be stopped gracefully
                 w2 = None
@@ -112,6 +134,8 @@ class Run:
                 s.sleep(0.2)
             self.log.append(['state', gen, st])
             kwr = {'timeout': c['timeout']}
+            if c.get('restart_force') is False and kind != 'pthread':
+                kwr['force'] = False
             if c['own_pipe']:
                 newpipe = Pipe()
                 kwr['results_pipe'] = newpipe
@@ -125,9 +149,12 @@ class Run:
             if r[0] == 'exc':
                 if isinstance(r[1], RuntimeError) and 'Could not stop' in str(r[1]):
                     s.probe('restart-could-not-stop:' + st)
-                    if not self.child_alive(kind, old_child):
+                    front_alive = old_front is not None and old_front._st is not None and old_front._st.state in ('runnable', 'blocked')
+                    if not self.child_alive(kind, old_child) and not front_alive:
                         self.viol('raises-only-if-unstoppable', f'runtimeerror-but-old-child-gone:{st}')
-                    if not (kind == 'pthread' and stuck):
+                    unstoppable = (kind == 'pthread' and (stuck or st == 'pipe-full')) or (stuck and kwr.get('force') is False) \
+                        or (kind == 'premote' and c.get('fault') is not None) or (st == 'pipe-full')
+                    if not unstoppable:
                         self.viol('restart-succeeds', f'could-not-stop:{st}:{kind}')
                     return
                 self.viol('restart-returns', f'restart-raises:{type(r[1]).__name__}:{st}', lib.safe_repr(r[1]))
@@ -136,6 +163,8 @@ class Run:
             # returned: the old child must be gone, the worker alive and equivalent
             if self.child_alive(kind, old_child):
                 self.viol('old-child-stopped', f'old-child-still-running-after-restart:{st}')
+            if old_front is not None and old_front._st is not None and old_front._st.state in ('runnable', 'blocked'):
+                self.viol('old-child-stopped', f'old-frontend-thread-still-running-after-restart:{st}')
             al = lib.timed(w.is_alive)
             if al[1] is not True:
                 self.viol('live-after-restart', f'is_alive={al[1]}:{st}')
